@@ -98,6 +98,9 @@ PAIRS = [
      ["parse", "5 May 2010", None, ["en"], None, None, {"CACHE_SIZE_LIMIT": 1, "RELATIVE_BASE": [2010, 5, 5, 0, 0, 0, 0]}]),
     ("small-cache-limit", ["parse", "12 janvier 2020", None, ["fr"], None, None, {"CACHE_SIZE_LIMIT": 2}],
      ["parse", "3 März 2015 14:05", None, ["de"], None, None, {"CACHE_SIZE_LIMIT": 2, "PREFER_DATES_FROM": "past"}]),
+    # plain dateparser.parse(text): no languages, no settings — every such call goes through the one module-level default parser
+    ("default-parser", ["parse", "5 mars 2021 10:00 PST", None, None, None, None, None], ["parse", "15 janvier 2020", None, None, None, None, None]),
+    ("default-parser", ["parse", "3 März 2015 14:05 EST", None, None, None, None, None], ["parse", "2 days ago UTC+3", None, None, None, None, None]),
     ("calendar-vs-parse", ["calendar", "jalali", "جمعه سی ام اسفند ۱۳۸۷"], ["parse", "12 بهمن 1394", None, ["fa"], None, None, None]),
 ]
 
